@@ -211,6 +211,12 @@ pub fn verif_dir() -> PathBuf {
     std::env::var("VERIF_DIR").map(PathBuf::from).unwrap_or_else(|_| PathBuf::from("/verif"))
 }
 
+/// Where evidence, replay files and scratch files go (`VERIF_OUT` redirects them, e.g. for
+/// sensitivity runs against a deliberately broken tree, so that committed evidence is untouched).
+pub fn out_dir() -> PathBuf {
+    std::env::var("VERIF_OUT").map(PathBuf::from).unwrap_or_else(|_| verif_dir())
+}
+
 // --------------------------------------------------------------- the worker
 
 #[derive(Serialize, Deserialize, Default)]
@@ -348,7 +354,7 @@ pub struct BatchResult {
 
 pub fn run_batch(def: &'static PropertyDef, tier: Tier, seed: u64, workers: u64) -> BatchResult {
     let t0 = Instant::now();
-    let work = verif_dir().join("work").join(format!("{}-{}", def.id, std::process::id()));
+    let work = out_dir().join("work").join(format!("{}-{}", def.id, std::process::id()));
     std::fs::create_dir_all(&work).unwrap();
     let spawn = |k: u64, start: u64| {
         let out = work.join(format!("w{k}.json"));
@@ -418,7 +424,7 @@ pub fn run_batch(def: &'static PropertyDef, tier: Tier, seed: u64, workers: u64)
 /// Execute a case in a fresh child process. Returns the violations it reports
 /// (an abort becomes a violation of class `abort`).
 pub fn exec_in_child(def: &'static PropertyDef, case: &Case, tag: &str) -> Vec<Violation> {
-    let work = verif_dir().join("work").join(format!("x-{}-{}", std::process::id(), tag));
+    let work = out_dir().join("work").join(format!("x-{}-{}", std::process::id(), tag));
     std::fs::create_dir_all(&work).unwrap();
     let cf = work.join("case.json");
     let of = work.join("out.json");
@@ -635,7 +641,7 @@ pub fn violation_digest(v: &Violation) -> String {
 }
 
 pub fn write_replay(case: &Case, v: &Violation, seed: u64, minimised: J) -> PathBuf {
-    let dir = verif_dir().join("replays");
+    let dir = out_dir().join("replays");
     std::fs::create_dir_all(&dir).unwrap();
     let digest = violation_digest(v);
     let suffix = if build_name() == "release" { String::new() } else { format!("-{}", build_name().replace('+', "_")) };
@@ -798,7 +804,7 @@ pub fn write_evidence(def: &'static PropertyDef, tier: Tier, seed: u64, br: &Bat
         "wall_s": br.wall_s,
         "violations": rep.new_violations.len(),
     });
-    let dir = verif_dir().join("evidence");
+    let dir = out_dir().join("evidence");
     std::fs::create_dir_all(&dir).unwrap();
     let tmp = dir.join(format!(".{}.json.tmp", def.id));
     let mut f = std::fs::File::create(&tmp).unwrap();
@@ -835,7 +841,7 @@ fn run_sub_build(def: &'static PropertyDef, tier: Tier, seed: u64, workers: u64,
     if code == 2 {
         eprintln!("{}", String::from_utf8_lossy(&out.stderr));
     }
-    let side = verif_dir().join("work").join(format!("sub-{}-{}.json", def.id, build.replace('+', "_")));
+    let side = out_dir().join("work").join(format!("sub-{}-{}.json", def.id, build.replace('+', "_")));
     let mut report = json!({"build": build, "runs": runs, "exit": code, "wall_s": t0.elapsed().as_secs_f64()});
     if let Ok(b) = std::fs::read(&side) {
         if let Ok(j) = serde_json::from_slice::<J>(&b) {
@@ -882,7 +888,7 @@ pub fn check_main(def: &'static PropertyDef, tier: Tier, seed: u64, workers: u64
         return sub_main(def, tier, seed, workers);
     }
     // replay files of earlier runs of this property are superseded
-    if let Ok(rd) = std::fs::read_dir(verif_dir().join("replays")) {
+    if let Ok(rd) = std::fs::read_dir(out_dir().join("replays")) {
         for e in rd.flatten() {
             let n = e.file_name().to_string_lossy().to_string();
             if n.starts_with(&format!("{}-", def.id)) && n.ends_with(".json") {
@@ -903,12 +909,16 @@ pub fn check_main(def: &'static PropertyDef, tier: Tier, seed: u64, workers: u64
         write_evidence(def, tier, seed, &br, &rep);
         return 2;
     }
-    // must-hit probes: a probe stuck at zero means the workload does not reach what it claims
-    for m in def.must_hit {
-        if br.stats.get(m) == 0 && br.stats.set_len(m) == 0 {
-            eprintln!("harness error: must-hit counter `{m}` is zero for {} ({})", def.id, tier.name());
-            write_evidence(def, tier, seed, &br, &rep);
-            return 2;
+    // must-hit probes: a probe stuck at zero means the workload does not reach what it claims.
+    // Only meaningful on a run without violations (a broken property often silences a probe,
+    // and the violation is the more useful report).
+    if rep.new_violations.is_empty() {
+        for m in def.must_hit {
+            if br.stats.get(m) == 0 && br.stats.set_len(m) == 0 {
+                eprintln!("harness error: must-hit counter `{m}` is zero for {} ({})", def.id, tier.name());
+                write_evidence(def, tier, seed, &br, &rep);
+                return 2;
+            }
         }
     }
     write_evidence(def, tier, seed, &br, &rep);
@@ -960,7 +970,7 @@ fn sub_main(def: &'static PropertyDef, tier: Tier, seed: u64, workers: u64) -> i
         }
     }
     let digests: serde_json::Map<String, J> = br.digests.iter().map(|(k, v)| (k.to_string(), json!(v))).collect();
-    let side = verif_dir().join("work").join(format!("sub-{}-{}.json", def.id, build_name().replace('+', "_")));
+    let side = out_dir().join("work").join(format!("sub-{}-{}.json", def.id, build_name().replace('+', "_")));
     let _ = std::fs::create_dir_all(side.parent().unwrap());
     let j = json!({"evaluations": br.stats.get("evaluations"), "distinct_nontrivial": br.stats.set_len("nontrivial"),
                    "violations": rep.new_violations.len(), "digests": digests});
